@@ -157,9 +157,13 @@ Qed.
 
 (* ---- loops: the body is followed by "iterate again or leave", which is not one of the continuations above,
    so the body must be interchangeable under EVERY continuation *)
+(* what follows one iteration of a loop whose later iterations run B': iterate again or leave, then K *)
+Definition kiter (K : kont) (B' : st -> list st) (lazy : bool) (limit mark count : Z) : kont :=
+  fun a => flat_map K (iterD B' lazy limit a mark count).
+
 Lemma HK_iter (K : kont) (B B' : st -> list st) lazy limit :
   (forall s, sok s -> okl (B s)) ->
-  (forall (F : kont) s, sok s -> hq (flat_map F (B s)) (flat_map F (B' s))) ->
+  (forall mark count s, sok s -> hq (flat_map (kiter K B' lazy limit mark count) (B s)) (flat_map (kiter K B' lazy limit mark count) (B' s))) ->
   forall n s mark count, iter_fuel limit count = n -> sok s ->
     hq (flat_map K (iterD B lazy limit s mark count)) (flat_map K (iterD B' lazy limit s mark count)).
 Proof.
@@ -172,7 +176,7 @@ Proof.
     - apply hq_flat_map_in. intros a Ha. apply (IH (iter_fuel limit (count + 1))); [|reflexivity|].
       + subst n. unfold iter_fuel. lia.
       + specialize (HBok s Hs). unfold okl in HBok. rewrite Forall_forall in HBok. apply HBok. exact Ha.
-    - apply (HB (fun a => flat_map K (iterD B' lazy limit a (pos s) (count + 1)))). exact Hs. }
+    - apply (HB (pos s) (count + 1) s Hs). }
   destruct lazy.
   - destruct (count <? 0) eqn:Ec; [apply Hag; lia|].
     cbn [flat_map]. apply hq_app; [apply hq_refl|].
@@ -181,18 +185,27 @@ Proof.
     rewrite !flat_map_app. apply hq_app; [apply Hag; lia | apply hq_refl].
 Qed.
 
-Lemma HK_loop (K : kont) lazy o m n r r' :
-  okp r -> (forall F : kont, HK F r r') -> HK K (NLoop lazy o m n r) (NLoop lazy o m n r').
+(* the body may be replaced if it is interchangeable under the loop's own continuations *)
+Lemma HK_loop_iter (K : kont) lazy o m n r r' :
+  okp r ->
+  (forall mark count, HK (kiter K (den r') lazy (loop_limit m n) mark count) r r') ->
+  HK K (NLoop lazy o m n r) (NLoop lazy o m n r').
 Proof.
   intros Hok H s Hs. unfold HKs. rewrite !fd_den_loop.
-  assert (HB : forall (F : kont) a, sok a -> hq (flat_map F (den r a)) (flat_map F (den r' a))) by (intros F a Ha; apply H; exact Ha).
+  assert (HB : forall mark count a, sok a ->
+            hq (flat_map (kiter K (den r') lazy (loop_limit m n) mark count) (den r a))
+               (flat_map (kiter K (den r') lazy (loop_limit m n) mark count) (den r' a))) by (intros mark count a Ha; apply H; exact Ha).
   destruct (m =? 0).
   - apply (HK_iter K _ _ lazy _ Hok HB _ _ _ _ eq_refl Hs).
   - rewrite !fd_flat_map_flat_map. eapply hq_trans.
     + apply hq_flat_map_in. intros a Ha. apply (HK_iter K _ _ lazy _ Hok HB _ _ _ _ eq_refl).
       specialize (Hok s Hs). unfold okl in Hok. rewrite Forall_forall in Hok. apply Hok. exact Ha.
-    + apply HB. exact Hs.
+    + apply (HB (pos s) (1 - m) s Hs).
 Qed.
+
+Lemma HK_loop (K : kont) lazy o m n r r' :
+  okp r -> (forall F : kont, HK F r r') -> HK K (NLoop lazy o m n r) (NLoop lazy o m n r').
+Proof. intros Hok H. apply HK_loop_iter; [exact Hok|]. intros mark count. apply H. Qed.
 
 (* ---- properties of continuations *)
 (* dead on a set of states / never failing *)
